@@ -247,6 +247,7 @@ KNOWN = {
     'solid_angle_kappa_overflow': (('adaptive_isotropic_solid_angle',), ('raise', 'inadmissible')),
     'solid_angle_kappa_underflow': (('adaptive_isotropic_solid_angle',), ('nan_position', 'raise_nan')),
     'bounded_eigenvector_corner_stall': (('bounded_eigenvector', 'adaptive_bounded_eigenvector'), ('stall',)),
+    'componentwise_next_to_discrete_nan': (('at_cw_normal_diag', 'at_cw_normal_full'), ('raise',)),
 }
 
 
@@ -314,6 +315,31 @@ def witnesses(out):
         out.known_hits.append(dict(flag='bounded_eigenvector_corner_stall',
                                    what='bounded eigenvector jump from a corner along an eigenvector that leaves the box in both directions exceeds the draw budget',
                                    witness=dict(boundaries=adapt.BND2, cov=[[1.0, 0.9], [0.9, 1.0]], observed=stalls)))
+    # D34: componentwise Andrieu-Thoms next to a non-successive bounded discrete proposal: the virtual moves leave the discrete
+    # parameter where it is, its reported density there is log(0) in both directions, and the step raises 'NaN acceptance!'
+    class _M:
+        def __call__(self, a, b, k):
+            if not (-10 < a < 10 and -10 < b < 10 and 0 <= k <= 5):
+                return -numpy.inf, -numpy.inf
+            return -0.5 * (a * a + b * b) - 0.1 * (k - 2) ** 2, 0.0
+    nan_raise = None
+    try:
+        ch = Chain(['a', 'b', 'k'], _M(), [P.ATAdaptiveNormal(['a', 'b'], adaptation_duration=50, componentwise=True),
+                                           P.BoundedDiscrete(['k'], {'k': (0, 5)}, successive={'k': False})], bit_generator=5)
+        ch.start_position = {'a': 0.1, 'b': 0.2, 'k': 2}
+        for _ in range(30):
+            ch.step()
+    except ValueError as e:
+        if 'NaN acceptance' in str(e):
+            nan_raise = 'step %d raised ValueError(NaN acceptance!)' % (ch.iteration + 1)
+        else:
+            raise
+    out.variant['componentwise_next_to_discrete_nan'] = nan_raise is None
+    if nan_raise:
+        out.known_hits.append(dict(flag='componentwise_next_to_discrete_nan',
+                                   what='componentwise Andrieu-Thoms next to a non-successive bounded discrete proposal: ' + nan_raise,
+                                   witness=dict(proposals=['ATAdaptiveNormal(a, b, componentwise=True, adaptation_duration=50)',
+                                                           'BoundedDiscrete(k in (0,5), successive=False)'], observed=nan_raise)))
     # kappa underflow: always accepted, long duration -> kappa tiny -> NaN proposals
     prop = adapt.drive('adaptive_isotropic_solid_angle', 20000, 1, 1, adapt.history('always', 2500, rng), rng, lambda *a: None)
     nan = None
